@@ -159,7 +159,14 @@ class E2EDriver:
             self.net.run()
             assert keep and isinstance(keep[0], objects.RemoteDBusObject), keep
             self.decoy_proxy = keep[0]
-        if introspect:
+        if introspect and unix:
+            # the caller names the interfaces it needs; one of them it knows with OTHER (older) declarations, the other
+            # not at all, and it asks for known interfaces to be replaced: the proxy uses what the exporter declares
+            other_echo_known(True)
+            interface.DBusInterface.knownInterfaces.pop('org.ex.Other', None)
+            ca.getRemoteObject('org.ex.Srv', '/obj', interfaces=['org.ex.Echo', 'org.ex.Other'],
+                               replaceKnownInterfaces=True).addBoth(got.append)
+        elif introspect:
             ca.getRemoteObject('org.ex.Srv', '/obj').addBoth(got.append)
         else:
             ca.getRemoteObject('org.ex.Srv', '/obj', interfaces=[iface]).addBoth(got.append)
